@@ -176,3 +176,32 @@ def lint_swallowing_try_around_loop(ck, R, m, qual, fn):
                            f'item that raises ends the loop and every later item is silently skipped; the handler belongs inside the loop',
                            file=m.relpath, line=t.lineno, func=qual, construct=f'try: for ... except {src(h.type) if h.type else ""}: pass')
     return n
+
+
+# H13 -----------------------------------------------------------------------------------------------------------------------------------
+def lint_view_signature(ck, R, m, tree_views):
+    """which member of a look-alike family of derived views a function consults (terminals vs centres table, ordinary-bond adjacency vs raw adjacency,
+    stereogenic vs chiral sets ...) is part of what it computes. For every function of the confirmed tree that read such views, the set it reads now is
+    compared with the confirmed one: a view that is no longer consulted (or a sibling consulted in its place) is reported. The normaliser has already
+    undone renames and inlined new helpers, so moving the read into a new helper does not change the set."""
+    from .normalize import KNOWN_VIEWS, VIEW_FAMILIES, view_reads
+    want_all = KNOWN_VIEWS.get(m.name) or {}
+    if not want_all:
+        return 0
+    now_all = view_reads(m.tree)
+    fam = {v: f for f, vs in VIEW_FAMILIES.items() for v in vs}
+    n = 0
+    present = {q for q, _ in __import__('sa.normalize', fromlist=['scoped_functions']).scoped_functions(m.tree)}
+    for q, want in sorted(want_all.items()):
+        if q not in present:
+            continue  # the function itself is gone (inlined / removed): other rules speak about that
+        n += 1
+        now = set(now_all.get(q, ()))
+        lost = sorted(set(want) - now)
+        gained = sorted(now - set(want))
+        if lost:
+            swapped = [g for g in gained if any(fam[g] == fam[l] for l in lost)]
+            ck.bad(R, f'views:{m.name}:{q}:{",".join(lost)}', f'{q} no longer consults {lost}' + (f' and consults {swapped} of the same family instead' if swapped else '') +
+                   ': the members of one family differ in what they contain (which atoms are keys, whether order-8 bonds count, stereogenic vs actually chiral), '
+                   'so the function now decides on another set', file=m.relpath, func=q, construct=', '.join(lost))
+    return n
